@@ -83,8 +83,10 @@ def c17_suite(seed, count, out, drv, thorough=False, budget_s=None):
         key = ('C17', seed, n)
         with impl.Sandbox() as sb:
             base, vios = variants(case, sb, g, out, drv, key, thorough)
-            if thorough and n % 10 == 0 and base['status'] == 'ok':
-                for hs in (0, 1, 12345):
+            neg = len(case.get('patterns', [])) >= 2 and any(pt.startswith('!') for pt in case['patterns'])
+            if base['status'] == 'ok' and ((thorough and n % 10 == 0) or (neg and out.dist['hashseed-children'] < (40 if thorough else 4))):
+                out.dist['hashseed-children'] += 1
+                for hs in ((0, 1, 12345) if thorough else (0, 1, 2, 3)):
                     r = hashseed_run(case, sb, hs)
                     out.traces_validated += 1
                     if r is None or r != base['files']:
